@@ -1,7 +1,8 @@
 (* Validate/Add.v — the `Add` method of each of the 33 plugins, transcribed line by line:
    arity tests, type assertions, Identical / AssignableTo / IsError tests, and every index
    expression (typs[i], Tuple.At(i)) — an index out of range or a failed unchecked type
-   assertion is the outcome [Crash].  The code modelled is /repo with the C09 fix patches. *)
+   assertion is the outcome [Crash].  The code modelled is /repo with the C09 fix patches (incl. C09-fix-send-only-channel and
+   C09-fix-untyped-constant-argument). *)
 From Verif Require Import Base.
 From Verif.Validate Require Import Aty.
 From Coq Require Import Bool List Arith NArith.
@@ -58,9 +59,20 @@ Definition add_apply (typs : list aty) : gres :=
   | _ => Err
   end)).
 
-(* ---- clone, gostring, hash, keys, set, sort, unique: one argument of any type ---- *)
+(* channel directions: `chanType.Dir() == types.SendOnly`, `chanType.Dir() != types.RecvOnly` *)
+Definition is_send (d : cdir) : bool := match d with DSend => true | _ => false end.
+Definition is_recv (d : cdir) : bool := match d with DRecv => true | _ => false end.
+(* the argument is a types.Basic of kind types.UntypedNil *)
+Definition is_untyped_nil (t : aty) : bool := match t with ABasic KUNil => true | _ => false end.
+
+(* ---- clone, keys, set, sort, unique: one argument of any type (clone registers
+        types.Default of it, see Gen.gen_model) ---- *)
 Definition add_one (typs : list aty) : gres :=
   need (length typs =? 1) (idx typs 0 (fun _ => Ok)).
+(* ---- gostring, hash: one argument, which is not the untyped nil (fixed: its type would be
+        printed as the type of a parameter) ---- *)
+Definition add_one_typed (typs : list aty) : gres :=
+  need (length typs =? 1) (idx typs 0 (fun t => need (negb (is_untyped_nil t)) Ok)).
 
 (* ---- compare, equal: one argument (curried) or two identical ones ---- *)
 Definition add_one_or_two (typs : list aty) : gres :=
@@ -155,8 +167,13 @@ Fixpoint do_all (typs : list aty) : gres :=
 Definition add_do (typs : list aty) : gres :=
   need (2 <=? length typs) (do_all typs).
 
-(* ---- dup: one channel ---- *)
+(* ---- dup: one channel that can be received from (fixed: chanOut refuses chan<- T) ---- *)
 Definition add_dup (typs : list aty) : gres :=
+  need (length typs =? 1) (
+  idx typs 0 (fun t0 => match t0 with AChan d _ => need (negb (is_send d)) Ok | _ => Err end)).
+
+(* the code before C09-fix-send-only-channel: any channel *)
+Definition add_dup_prefix (typs : list aty) : gres :=
   need (length typs =? 1) (
   idx typs 0 (fun t0 => match t0 with AChan _ _ => Ok | _ => Err end)).
 
@@ -190,7 +207,7 @@ Definition add_fmap (typs : list aty) : gres :=
   | ASlice elem => fmap_fn1 t0 elem
   | ABasic k => need (bkind_eqb (default_kind k) KString) (fmap_fn1 t0 (ABasic KInt32))
   | ASig _ _ _ => fmap_errorInOut t0 t1
-  | AChan _ elem => fmap_fn1 t0 elem
+  | AChan d elem => need (negb (is_send d)) (fmap_fn1 t0 elem)   (* fixed: chanInOut refuses chan<- T *)
   | _ => Err
   end))).
 
@@ -221,11 +238,12 @@ Definition join_errorType (typs : list aty) : gres :=
 Fixpoint join_chans (prev : option aty) (typs : list aty) : gres :=
   match typs with
   | [] => Ok
-  | AChan _ e :: r =>
+  | AChan d e :: r =>
+      need (negb (is_send d)) (             (* fixed: chanVariantTypes refuses chan<- T *)
       match prev with
       | Some p => need (identical e p) (join_chans (Some e) r)
       | None => join_chans (Some e) r
-      end
+      end)
   | _ :: _ => Err
   end.
 Definition add_join (typs : list aty) : gres :=
@@ -236,15 +254,16 @@ Definition add_join (typs : list aty) : gres :=
       match e with
       | ASlice _ => need (length typs =? 1) Ok
       | ABasic k => need (length typs =? 1) (need (bkind_eqb k KString) Ok)
-      | AChan _ _ => need (length typs =? 1) Ok
+      | AChan d _ => need (length typs =? 1) (need (negb (is_send d)) Ok)   (* fixed: sliceOfChanType *)
       | _ => Err
       end
   | ASig _ _ _ => join_errorType typs
   | ATuple ts =>
       if alen ts =? 2 then at_ ts 0 (fun a => at_ ts 1 (fun b => join_errorType [a; b])) else Err
-  | AChan _ e =>
+  | AChan d e =>
       match e with
-      | AChan _ _ => need (length typs =? 1) Ok
+      | AChan d' _ =>                       (* fixed: chanType wants (chan | <-chan) of <-chan T *)
+          need (length typs =? 1) (need (negb (is_send d)) (need (is_recv d') Ok))
       | _ => need (2 <=? length typs) (join_chans None typs)
       end
   | _ => Err
@@ -270,14 +289,17 @@ Definition add_mem_prefix (typs : list aty) : gres :=
   need (length typs =? 1) (
   idx typs 0 (fun t0 => match t0 with ASig _ _ _ => Ok | _ => idx typs 1 (fun _ => Err) end)).
 
-(* ---- pipeline: (func(A) <-chan B, func(B) <-chan C) ---- *)
-Definition funcInChanOut (t : aty) : option (aty * aty) + gres :=
+(* ---- pipeline: (func(A) <-chan B, func(B) <-chan C); fixed: the resulting channel of the first
+        function may not be send only, that of the second one has to be receive only ---- *)
+Definition funcInChanOut (t : aty) (recvOnly : bool) : option (aty * aty) + gres :=
   match t with
   | ASig ps rs _ =>
       if negb (alen ps =? 1) then inr Err else
       if negb (alen rs =? 1) then inr Err else
       match anth rs 0, anth ps 0 with
-      | Some (AChan _ e), Some p => inl (Some (p, e))
+      | Some (AChan d e), Some p =>
+          if is_send d then inr Err else
+          if recvOnly && negb (is_recv d) then inr Err else inl (Some (p, e))
       | Some _, Some _ => inr Err
       | _, _ => inr Crash
       end
@@ -286,12 +308,12 @@ Definition funcInChanOut (t : aty) : option (aty * aty) + gres :=
 Definition add_pipeline (typs : list aty) : gres :=
   need (length typs =? 2) (
   idx typs 0 (fun t0 =>
-  match funcInChanOut t0 with
+  match funcInChanOut t0 false with
   | inr r => r
   | inl None => Crash
   | inl (Some (_, b1)) =>
       idx typs 1 (fun t1 =>
-      match funcInChanOut t1 with
+      match funcInChanOut t1 true with
       | inr r => r
       | inl None => Crash
       | inl (Some (b2, _)) => need (identical b1 b2) Ok
@@ -331,9 +353,14 @@ Definition add_traverse (typs : list aty) : gres :=
   | _ => Err
   end)).
 
-(* ---- tuple: at least one argument ---- *)
+(* ---- tuple: at least one argument; a single multi-valued call is unpacked; (fixed) no
+        argument is the untyped nil ---- *)
 Definition add_tuple (typs : list aty) : gres :=
-  need (negb (length typs =? 0)) Ok.
+  need (negb (length typs =? 0)) (
+  match typs with
+  | [ATuple _] => Ok
+  | _ => need (negb (existsb is_untyped_nil typs)) Ok
+  end).
 
 (* ---- uncurry: func(A) func(B) C ---- *)
 Definition add_uncurry (typs : list aty) : gres :=
@@ -351,7 +378,8 @@ Definition add_model (p : plugin) (typs : list aty) : gres :=
   match p with
   | PAll | PAny | PFilter | PTakewhile => add_pred typs
   | PApply => add_apply typs
-  | PClone | PGostring | PHash | PKeys | PSet | PSort | PUnique => add_one typs
+  | PClone | PKeys | PSet | PSort | PUnique => add_one typs
+  | PGostring | PHash => add_one_typed typs
   | PCompare | PEqual => add_one_or_two typs
   | PCompose => add_compose typs
   | PContains => add_contains typs
